@@ -121,7 +121,8 @@ def mk_reward(cr, objs, setc, rd):
     if k == "list": return rs
     keys = [pick(objs[j - 1], setc[j - 1], rd) for j in cr["idx"]]
     if k == "binary": return BinaryReward(keys[0]) if rs[0] == 1 else BinaryReward(keys[0], rs[0])
-    if k == "discrete":
+    if k == "mapping" and all(hashable(x) for x in keys + objs): return DiscreteReward(dict(zip(keys, rs)), default=num(cr["d"]))
+    if k in ("discrete", "mapping"):
         if rd["form"] == "mapping" and all(hashable(x) for x in keys + objs): return DiscreteReward(dict(zip(keys, rs)), default=num(cr["d"]))
         return DiscreteReward(keys, rs, default=num(cr["d"]))
     if k == "fn": return Table(keys, rs, num(cr["d"]))
@@ -226,11 +227,10 @@ def index_of(acts, action):
 
 def equality_defect(acts):
     """None when the action objects are pairwise different under their own == (both ways round), equal to themselves and
-    found at their own position by list.index; else what is wrong"""
+    therefore found at their own position by list.index (first i with acts[i] == a); else what is wrong"""
     try:
         for i, a in enumerate(acts):
             if not (a == a): return "action %d is not equal to itself" % (i + 1)
-            if acts.index(a) != i: return "list.index finds action %d at position %d" % (i + 1, acts.index(a) + 1)
             for j in range(i + 1, len(acts)):
                 if a == acts[j] or acts[j] == a: return "actions %d and %d compare equal (%s)" % (i + 1, j + 1, "both ways" if (a == acts[j] and acts[j] == a) else "one way only")
     except Exception as e:
@@ -464,27 +464,36 @@ ALL_SHAPES = ("scalar", "string", "cat", "dense", "densecat", "nested", "sparse"
 
 
 def chunks(ctx):
-    """(name, MaxLen, levels, shapes, flavours, envs, check Idempotent)"""
+    """(name, MaxLen, levels, shapes, flavours, envs, check Idempotent, Mixes)"""
     if ctx.quick:
-        return [("len1", 1, ("full", "off", "off"), ALL_SHAPES, ("igl", "logged"), ("diff", "rev"), True),
-                ("len2", 2, ("tiny", "tiny", "off"), ("scalar", "cat", "densecat", "nested", "sparsecat", "sparsepart", "sparsezero"), ("iglmix", "logged"), ("same", "rev"), False)]
-    return [("len1", 1, ("full", "off", "off"), ALL_SHAPES, ("sim", "igl", "iglmix", "logged"), ("one", "same", "diff", "samediff", "rev"), True),
-            ("len2", 2, ("lite", "lite", "off"), ALL_SHAPES, ("igl", "iglmix", "logged"), ("same", "diff", "rev"), False),
-            ("len3", 3, ("tiny", "tiny", "tiny"), ALL_SHAPES, ("iglmix", "logged"), ("diff", "rev"), False)]
+        return [("len1", 1, ("full", "off", "off"), ALL_SHAPES, ("igl", "logged"), ("diff", "rev"), True, "none"),
+                ("len2", 2, ("tiny", "tiny", "off"), ("scalar", "cat", "densecat", "nested", "sparsecat", "sparsepart", "sparsezero"), ("iglmix", "logged"), ("same", "rev"), False, "none"),
+                ("mix1", 1, ("tiny", "off", "off"), ALL_SHAPES, ("igl",), ("same",), False, "only")]
+    return [("len1", 1, ("full", "off", "off"), ALL_SHAPES, ("sim", "igl", "iglmix", "logged"), ("one", "same", "diff", "samediff", "rev"), True, "none"),
+            ("len2", 2, ("lite", "lite", "off"), ALL_SHAPES, ("igl", "iglmix", "logged"), ("same", "diff", "rev"), False, "none"),
+            ("len3", 3, ("tiny", "tiny", "tiny"), ALL_SHAPES, ("iglmix", "logged"), ("diff", "rev"), False, "none"),
+            ("mix1", 1, ("full", "off", "off"), ALL_SHAPES, ("igl", "logged"), ("same", "samediff", "rev"), False, "only"),
+            ("mix2", 2, ("tiny", "tiny", "off"), ALL_SHAPES, ("igl",), ("same", "diff"), False, "only")]
 
 
 def tla_set(xs): return "{" + ", ".join('"%s"' % x for x in xs) + "}"
 
 
-def run_chunk(ctx, name, maxlen, levels, shapes, flavours, envs, idem):
+def tlc_chunk(ctx, name, maxlen, levels, shapes, flavours, envs, idem, mixes):
+    """the TLC run of one chunk (runs in a thread: the chunks' model checking overlaps with each other and with the replay)"""
     sub = {"MaxLen = 1": "MaxLen = %d" % maxlen, 'Level1 = "full"': 'Level1 = "%s"' % levels[0], 'Level2 = "off"': 'Level2 = "%s"' % levels[1],
            'Level3 = "off"': 'Level3 = "%s"' % levels[2],
            'Shapes = {"scalar", "string", "cat", "dense", "densecat", "nested", "sparse", "sparsecat", "sparsecatk", "sparsenest", "sparsepart", "sparsezero"}': "Shapes = " + tla_set(shapes),
            'Flavours = {"sim", "igl", "iglmix", "logged"}': "Flavours = " + tla_set(flavours),
-           'Envs = {"one", "same", "diff"}': "Envs = " + tla_set(envs)}
+           'Envs = {"one", "same", "diff"}': "Envs = " + tla_set(envs), 'Mixes = "none"': 'Mixes = "%s"' % mixes}
     if not idem: sub["INVARIANT Idempotent"] = ""
     cfg = tracecheck._cfg("ReprFilters.cfg", sub, ctx.scratch, "repr_%s.cfg" % name)
-    r = tlc.run("ReprFilters", cfg, ctx.scratch, workers=16, timeout=1400, heap="12g", seed=ctx.seed, coverage=True)
+    r = tlc.run("ReprFilters", cfg, ctx.scratch, workers=ctx.pick(6, 8), timeout=1400, heap="8g", seed=ctx.seed, coverage=True)
+    r.out = ""
+    return r
+
+
+def finish_chunk(ctx, r, name, maxlen):
     need = ["ReprStep", "FlattenStep", "SparsifyStep", "DensifyStep", "NoiseStep", "BatchStep", "FinalizeStep"] + (["UnbatchStep"] if maxlen > 1 else [])
     ctx.add_tlc("ReprFilters_" + name, r, required_actions=need)
     for v in r.violations:
@@ -563,8 +572,11 @@ def run(ctx):
     warnings.filterwarnings("ignore")
     import coba.environments, coba.pipes      # imported before the workers are forked
     total = 0; ncase = 0; by_depth = {}; by_shape = {}; steps_checked = 0; excluded = 0; second = 0
-    for chunk in chunks(ctx):
-        cases = run_chunk(ctx, *chunk)
+    import concurrent.futures
+    pool = concurrent.futures.ThreadPoolExecutor(max_workers=ctx.pick(3, 2))
+    futures = [(chunk, pool.submit(tlc_chunk, ctx, *chunk)) for chunk in chunks(ctx)]
+    for chunk, fut in futures:
+        cases = finish_chunk(ctx, fut.result(), chunk[0], chunk[1])
         bad_of = {}              # (key, rk, which rendering) -> {(where, clause)}
         pending = []
         todo, results = replay_all(cases, ctx.seed, not ctx.quick)
